@@ -42,12 +42,15 @@ static int streamReply(MPT_INTERFACE(reply_context) *rc, const MPT_STRUCT(messag
 		        MPT_tr("bad reply operation"), MPT_tr("reply already sent"));
 		return MPT_ERROR(BadArgument);
 	}
+	/* mark id as reply */
+	srm->rd.val[0] |= 0x80;
 	ret = mpt_stream_reply(&srm->data, srm->rd.len, srm->rd.val, msg);
 	
 	if (ret >= 0) {
 		srm->rd.len = 0;
 	} else {
 		uint64_t id = 0;
+		srm->rd.val[0] &= 0x7f;
 		mpt_message_buf2id(srm->rd.val, srm->rd.len, &id);
 		mpt_log(0, _func, MPT_LOG(Warning), "%s: %s",
 		        MPT_tr("bad reply operation"), MPT_tr("unable to send"));
